@@ -6,6 +6,8 @@ NOTES = ("All checks are ./check <id> --tier quick|thorough (runner/vrunner.py).
          "spec/b3spec (anchored against a second Python model and the published vectors on every run).")
 
 ENGINES_DOC = [
+    {"name": "sched", "path": "engines/sched", "serves_properties": ["C08", "C18"],
+     "kind_free_text": "Rust + loom 0.7.2; the real crate with hooks H1-H3 and the real C library (TBB seam on, kernel calls and feature-cache accesses redirected to harness scheduling points, blake3_tbb.cpp against a stand-in parallel_invoke); TSan driver for the free-running C pass"},
     {"name": "kernels", "path": "engines/kernels", "serves_properties": ["C05", "C07"],
      "kind_free_text": "Rust + build.rs linking every native kernel flavour from /repo/c under distinct names (Unix asm, C intrinsics as cint_*, Windows-GNU asm as win_* after .rdata->.rodata), register-sentinel trampolines (GNU as), guard-page allocator, child-process isolation, clang ASan/UBSan driver"},
     {"name": "clib", "path": "engines/clib", "serves_properties": ["C06"],
@@ -125,6 +127,19 @@ CHECKS["C07"] = {
     "technique": "bounded-exhaustive enumeration of kernel argument shapes under three monitors: PROT_NONE guard pages flush against every operand (child processes), register-sentinel trampolines for both calling conventions, and an ASan+UBSan build of the C code",
     "text": "Every kernel flavour is run with each operand - every input separately, the input-pointer array, key/CV, block, and an output of exactly the entitled size - placed flush against an inaccessible page, once on its right and once on its left, for block_len 0..=64, input counts 0..=2*degree+3 (35 in the thorough tier) x blocks {1,16} x counters x increment and xof_many 1..=40 blocks; a fault kills only the child and is reported with the case that was running, and the sweep resumes behind it. Every assembly and C kernel call goes through a hand-written trampoline that loads sentinels into all callee-saved registers of the target convention (System V: rbx, rbp, r12-r15; Win64 additionally rsi, rdi, xmm6-xmm15) and checks them, the stack pointer and the direction flag afterwards. The C library and the C intrinsics are additionally built with clang -fsanitize=address,undefined and driven through 16 update histories x 4 modes x 17 (seek, out_len) probes x 5 dispatch masks and direct kernel calls on exact-size heap blocks.",
     "note": "UB in the Rust intrinsics that neither faults nor changes results is not observable; Win64 assembly is run as ELF (no real Windows loader). API-level C histories under guard pages are covered by the sanitizer build rather than mprotect.",
+}
+
+CHECKS["C08"] = {
+    "engine": "sched (loom)", "category": "model_checking", "design_ref": "DESIGN.md 3/C08",
+    "technique": "stateless model checking of the real code under a controlled scheduler (loom): exhaustive order assignments plus all interleavings of join/kernel-entry scheduling points under a preemption bound, Rust and C",
+    "text": "Hasher::update_with_join runs with a scripted Join (hook H3) and blake3_hasher_update_tbb with a scripted parallel_invoke (the real c/blake3_tbb.cpp compiled against a stand-in header), on inputs whose split tree has 1..7 internal nodes at every SIMD level, from empty and non-empty hashers. (1) Every assignment of left-first/right-first to the internal nodes is executed. (2) For every choice of up to two (quick) / three (thorough) nodes run concurrently on loom threads, every interleaving of the scheduling points - join entry and exit, every kernel entry (hook H2; blake3.c's kernel calls are redirected to harness functions) - is executed under preemption bound 2 / 3 (unbounded for the smallest scenarios). After every execution the complete hasher state and 64 output bytes must equal single-threaded update, which is tied to the spec. Supporting, labelled as sampling: real rayon pools of 1..16 threads through update_rayon / update_mmap_rayon, and a free-running ThreadSanitizer build of the C parallel path.",
+    "note": "Interleavings inside one kernel call and weak-memory effects on plain accesses are outside the scheduler (race-detector passes only). oneTBB itself is not installed; its parallel_invoke is a stand-in. loom MAX_THREADS=5.",
+}
+CHECKS["C18"] = {
+    "engine": "sched (loom)", "category": "model_checking", "design_ref": "DESIGN.md 3/C18",
+    "technique": "stateless model checking under a controlled scheduler (loom) of threads using disjoint instances, with scheduling points at kernel entries and at the C feature-cache load/store; plus deviation-bounded enumeration of Platform::detect() answers",
+    "text": "Two and three loom threads each run a complete operation sequence (incremental hashing, extended output with seeks across block counter 2^32, clones, one-shot calls, hazmat merges; C: init/init_keyed/init_derive_key_raw, update, finalize_seek) on their own instances; all interleavings of the scheduling points under preemption bound 2 (3 for pairs in the thorough tier) are executed and every thread's results must equal the results of the same sequence run alone (= the spec). On the C side every execution starts with g_cpu_features = UNDEFINED and the cache's load and store are scheduling points (hook H5), so detection itself races, and the final cache value is checked. On the Rust side the cpufeatures caches are over-approximated: every Platform::detect() call may answer any level up to the best one, all answer sequences with at most two deviations. Sampling, labelled so: 16 real threads released together as the first calls of fresh processes.",
+    "note": "cpufeatures' own atomics are third-party code loom does not see. Interleavings finer than the scheduling points are not explored.",
 }
 
 NOT_APPLICABLE = {("C%02d" % i): PENDING for i in range(1, 19)}
